@@ -12,6 +12,10 @@ translator, and a sentence goes to ADVISORIES (the pipeline then widens the corr
   Gen.Route.simpleKeys      or `path_namespace` / `args` / `arg_paths` (evaluated as such), or its own name (not
   Gen.Route.mtypeLookup     evaluated).  probe: a rule with that parameter alone against duck-typed messages that
                             differ in one attribute (cross-check: the `if p: r.add('key', v)` chain + tuple of Rule.add)
+  Gen.Route.evaluatesArg0ns does Rule.match evaluate arg0namespace (first argument a string in the bus-name namespace: the
+                            router after fixes/C14-05) or ignore it (txdbus as found)?  probe: a rule arg0namespace='com.ex'
+                            against bodies inside / outside the namespace, non-string, empty, absent; anything else than
+                            "exactly the inside ones" or "all" is a translator error
   (id allocation)           probe: ids returned by addMatch over a history with removals are 0,1,2,... never reissued
                             (what the model does); anything else is a translator error
   Gen.Route.clientTextKeys  for every parameter of DBusClientConnection.addMatch: the key it is written under
@@ -109,12 +113,18 @@ def _router_params(router_mod):
     return [p for p in ps if p not in ('self', 'callback')]
 
 
+# first-argument probes for a namespace 'com.ex' (inside / outside it by the DBus specification)
+_NS_INSIDE = [['com.ex'], ['com.ex.a'], ['com.ex.a.b', 'x']]
+_NS_OUTSIDE = [['com.exx'], ['com.e'], ['org.other'], ['x', 'com.ex'], [7], [['com.ex']], [], None]
+
+
 def probe_router(router_mod):
-    """-> (addKeys [(param, key)], simpleKeys, mtypeLookup, mtypes [(name, code)])"""
+    """-> (addKeys [(param, key)], simpleKeys, mtypeLookup, mtypes [(name, code)], arg0namespace evaluated?)"""
     D = lambda kw, **a: _delivered(router_mod, kw, **a)
     pairs, simple = [], []
     lookup = None
     mtypes = []
+    arg0ns_evaluated = False
     PV = 'Pv.probe'
     for p in _router_params(router_mod):
         kind = None
@@ -169,6 +179,20 @@ def probe_router(router_mod):
                     kind = 'arg_paths' if D({p: [(0, '/b/')]}, body=['/b/1']) else 'args'
             except Exception:
                 pass
+        # --- the namespace of the first argument (arg0namespace with the meaning of the DBus specification: the first
+        #     argument is a string equal to the value or continuing it after a dot)?
+        if kind is None:
+            try:
+                inside = all(D({p: 'com.ex'}, body=b) for b in _NS_INSIDE)
+                outside = not any(D({p: 'com.ex'}, body=b) for b in _NS_OUTSIDE)
+            except Exception:
+                inside = outside = False
+            if inside and outside:
+                if p != 'arg0namespace':
+                    raise ValueError('probe: the parameter %r of MessageRouter.addMatch is evaluated as a bus-name namespace '
+                                     'of the first argument; the model knows that only for arg0namespace' % (p,))
+                kind = p                # stored under its own name; the switch below says that it is evaluated
+                arg0ns_evaluated = True
         # --- not evaluated at all?
         if kind is None:
             try:
@@ -190,7 +214,7 @@ def probe_router(router_mod):
         else:
             raise ValueError('probe: no type constraint is evaluated and the router has no table of type names')
     return (canon_sorted(pairs, CANON_PARAMS, key=lambda x: x[0]), canon_sorted(sorted(set(simple)), CANON_SIMPLE),
-            lookup, sorted(mtypes, key=lambda kv: (kv[1], kv[0])))
+            lookup, sorted(mtypes, key=lambda kv: (kv[1], kv[0])), arg0ns_evaluated)
 
 
 def find_type_table(router_mod):
@@ -541,7 +565,7 @@ def cross_check(what, recogniser, probed, project=lambda x: x):
 def emit(repo):
     del ADVISORIES[:]
     from txdbus import router, client, bus, objects, interface
-    pairs, simple, lookup, mtypes = probe_router(router)
+    pairs, simple, lookup, mtypes, arg0ns_evaluated = probe_router(router)
     probe_ids(router)
     ck, esc = probe_client(client)
     bk = probe_bus(bus, router)
@@ -581,6 +605,11 @@ def emit(repo):
     L.append('')
     L.append('/-- `true`: the type constraint is compared through the table of type names; `false`: as given. -/')
     L.append('def mtypeLookup : Bool := %s' % ('true' if lookup else 'false'))
+    L.append('')
+    L.append('/-- `true`: `Rule.match` evaluates a rule\'s `arg0namespace` with the meaning of the DBus specification (the first')
+    L.append('argument is a string, equal to the value or continuing it after a dot: fixes/C14-05); `false`: the value is')
+    L.append('stored and never evaluated (txdbus as found). -/')
+    L.append('def evaluatesArg0ns : Bool := %s' % ('true' if arg0ns_evaluated else 'false'))
     L.append('')
     L.append("/-- `true`: `DBusClientConnection.addMatch` writes an apostrophe inside a value as '\\'' (DBus quoting rule). -/")
     L.append('def clientEscapes : Bool := %s' % ('true' if esc else 'false'))
